@@ -113,6 +113,18 @@ type ZMaps struct {
 	SV map[string]ZInner
 	SF map[string]float32
 }
+
+// containers inside containers, to depth three ("slices and maps of these nested to any depth")
+type ZNested struct {
+	MM  map[string]map[string]int32
+	LM  []map[string]int32
+	ML  map[string][]int32
+	MLS map[string][]ZInner
+	LMP []map[string]*ZInner
+	MML map[string]map[int32][]string
+	LLM [][]map[string]int64
+	MT  map[string]time.Time
+}
 type ZAnon struct {
 	Name  string
 	Inner struct{ A int32 }
@@ -243,6 +255,23 @@ func siEq(a, b reflect.Value, seen map[[2]uintptr]bool) bool {
 	return reflect.DeepEqual(a.Interface(), b.Interface())
 }
 
+// siEntriesEqual: got (a map[interface{}]interface{} or nil) holds the entries of want when its keys and values are
+// brought to want's types with the library's own assignment (SetValue)
+func siEntriesEqual(want, got interface{}) (eq bool) {
+	defer func() {
+		if recover() != nil {
+			eq = false
+		}
+	}()
+	wv := reflect.ValueOf(want)
+	if got == nil {
+		return wv.Len() == 0
+	}
+	nv := reflect.New(wv.Type()).Elem()
+	SetValue(nv, reflect.ValueOf(got))
+	return siEqual(want, nv.Interface())
+}
+
 type ZTimes struct {
 	T []time.Time
 	P []*ZInner
@@ -330,7 +359,30 @@ func siZoo(rng *rand.Rand, n int) map[string]interface{} {
 		ss[""] = "empty key"
 		ss["empty value"] = ""
 	}
+	nz := &ZNested{MM: map[string]map[string]int32{}, ML: map[string][]int32{}, MLS: map[string][]ZInner{}, MML: map[string]map[int32][]string{}, MT: map[string]time.Time{}}
+	for i := 0; i < n && i < 12; i++ {
+		k := "k" + strconv.Itoa(i)
+		nz.MM[k] = map[string]int32{"a": int32(i), siRandString(rng, 2): -int32(i)}
+		nz.LM = append(nz.LM, map[string]int32{k: int32(i)})
+		nz.ML[k] = []int32{int32(i), 2, 3}
+		nz.MLS[k] = []ZInner{{int32(i), "x"}}
+		nz.LMP = append(nz.LMP, map[string]*ZInner{k: {int32(i), "p"}, "nil": nil})
+		nz.MML[k] = map[int32][]string{int32(i): {"a", ""}, -1: nil}
+		nz.LLM = append(nz.LLM, []map[string]int64{{k: int64(i) << 33}, {}})
+		nz.MT[k] = siMillis(rng)
+	}
+	if n > 3 {
+		nz.MM["empty"] = map[string]int32{}
+		nz.MM["nil"] = nil
+		nz.ML["nil"] = nil
+	}
 	return map[string]interface{}{
+		"nested-containers":     nz,
+		"[]map":                 nz.LM,
+		"[][]map":               nz.LLM,
+		"toplevel-map/of-ints":  si,
+		"toplevel-map/of-maps":  nz.MM,
+		"toplevel-map/of-lists": nz.ML,
 		"scalars": &ZScalars{B: n%2 == 0, I8: int8(n), I16: int16(-n), I32: math.MinInt32 + int32(n), I: n * 1000, I64: math.MaxInt64 - int64(n),
 			U8: uint8(n), U16: uint16(n * 7), U32: math.MaxUint32 - uint32(n), U: uint(n) << 20, U64: uint64(n) << 40, F32: float32(n) + 0.5, F64: float64(n) * 1.1,
 			S: siRandString(rng, n), Bin: bytes.Repeat([]byte{byte(n)}, n), T: siMillis(rng)},
@@ -378,6 +430,15 @@ func siC01(r *siReport) {
 			if err != nil {
 				r.fail(cn, err.Error())
 				continue
+			}
+			if strings.HasPrefix(name, "toplevel-map/") {
+				// the dynamic type of a top-level map is lost (known finding); its entries must still be the ones sent
+				en := "toplevel-map-entries" + cn[len("toplevel-map"):]
+				if siEntriesEqual(v, out) {
+					r.ok(en)
+				} else {
+					r.fail(en, fmt.Sprintf("entries differ: %v", out))
+				}
 			}
 			if !siEqual(v, out) {
 				r.fail(cn, fmt.Sprintf("decoded value differs (type %T)", out))
@@ -1541,6 +1602,9 @@ func siC14(r *siReport) {
 		}
 	}
 	try("cyclic/list-into-self-typed-list-field", []byte{0x43, 0x01, 0x48, 0x91, 0x04, 0x76, 0x61, 0x6c, 0x73, 0x60, 0x79, 0x51, 0x91}, map[string]reflect.Type{"H": reflect.TypeOf(struct{ Vals ZNestList }{})})
+	try("cyclic/map-into-self-typed-map-field", []byte{0x43, 0x01, 0x48, 0x91, 0x04, 0x76, 0x61, 0x6c, 0x73, 0x60, 0x48, 0x01, 0x61, 0x51, 0x91, 0x5a}, map[string]reflect.Type{"H": reflect.TypeOf(struct{ Vals ZNestMap }{})})
+	try("cyclic/map-into-self-in-typed-list-field", []byte{0x43, 0x01, 0x48, 0x91, 0x04, 0x76, 0x61, 0x6c, 0x73, 0x60, 0x79, 0x48, 0x01, 0x61, 0x51, 0x92, 0x5a}, map[string]reflect.Type{"H": reflect.TypeOf(struct{ Vals []ZNestMap }{})})
+	try("cyclic/list-in-map-into-self-typed-field", []byte{0x43, 0x01, 0x48, 0x91, 0x04, 0x76, 0x61, 0x6c, 0x73, 0x60, 0x79, 0x48, 0x01, 0x61, 0x51, 0x91, 0x5a}, map[string]reflect.Type{"H": reflect.TypeOf(struct{ Vals []map[string][]ZNestMap }{})})
 	try("selfptr/field-of-mutually-pointing-types", []byte{0x43, 0x01, 0x48, 0x91, 0x01, 0x70, 0x60, 0x4e}, map[string]reflect.Type{"H": reflect.TypeOf(struct{ P ZMutPtrA }{})})
 	try("selfptr/field-of-self-pointing-type", []byte{0x43, 0x01, 0x51, 0x91, 0x01, 0x66, 0x60, 0x90}, map[string]reflect.Type{"Q": reflect.TypeOf(ZSelfPtrHolder{})})
 	// a list referenced many times into fields of another slice type: the work must not be (elements x references)
